@@ -64,10 +64,16 @@ class DecoderModel:
         # ---- the payload object: local that receives the Ok payload of that call
         self.payload_local = None
         outer_expr = an.call_expr(t, self.outer["bb"])
+        self.payload_def = None
         for l, decl in enumerate(fn.locals):
             if l <= fn.arg_count or decl["ty"]["s"] != "&[u8]":
                 continue
             d = an.unique_def(l)
+            if d is None:
+                # `payload = rest;` steps: the defining assignment is the one that dominates the others
+                ds = [x for x in an.defs().get(l, []) if x[0] in cfg.succ]
+                firsts = [x for x in ds if all(cfg.dominates(x[0], y[0]) for y in ds)]
+                d = firsts[0] if len(firsts) == 1 else None
             if d is None or getattr(d[2], "rv", None) is None:
                 continue
             e = an.rvalue_expr(d[2].rv, d[0], d[1])
@@ -75,8 +81,9 @@ class DecoderModel:
             if p is not None and same_value(p, outer_expr):
                 # the one that is mutably borrowed is the cursor (the earliest, if it is handed on by value later)
                 if any(ev["kind"] == "mutcall" for evs2 in an.events(l, False).values() for ev in evs2):
-                    if self.payload_local is None or cfg.dominates(d[0], an.unique_def(self.payload_local)[0]) and d[0] != an.unique_def(self.payload_local)[0]:
+                    if self.payload_local is None or cfg.dominates(d[0], self.payload_def[0]) and d[0] != self.payload_def[0]:
                         self.payload_local = l
+                        self.payload_def = d
         if self.payload_local is None:
             self.problem("cannot identify the payload cursor (the slice returned by the outer header read)")
             return
@@ -121,7 +128,7 @@ class DecoderModel:
         for n, cl in enumerate(self.cursor_chain):
             for bb, lst in an.events(cl, False).items():
                 for ev in lst:
-                    if n > 0 and ev["kind"] == "def":
+                    if n > 0 and ev["kind"] == "def" and not (len(an.defs().get(cl, [])) > 1):
                         continue
                     if n < len(self.cursor_chain) - 1 and ev["kind"] in ("move", "read") :
                         continue
@@ -130,9 +137,16 @@ class DecoderModel:
             pe[bb].sort(key=lambda ev: ev["idx"])
         for bb in sorted(pe, key=lambda b: cfg.rpo().index(b) if b in cfg.rpo() else 10**6):
             for ev in pe[bb]:
-                if ev["kind"] in ("mutcall", "readcall", "write", "escape", "move", "read"):
+                if ev["kind"] in ("mutcall", "readcall", "write", "escape", "move", "read", "def"):
                     self.pevents.append(ev)
-        self.consumers = [ev for ev in self.pevents if ev["kind"] == "mutcall"]
+        # `cursor = cursor.split_at(n).1` / `cursor = &cursor[n..]` steps the cursor like advance(n)
+        for ev in self.pevents:
+            if ev["kind"] in ("write", "def") and ev["path"] == [] and ev.get("stmt") is not None and not (ev["bb"] == self.payload_def[0] and ev["idx"] == self.payload_def[1]):
+                amt = self._step_amount(ev)
+                if amt is not None:
+                    ev["pseudo"] = ("ADVANCE",)
+                    ev["amount"] = amt
+        self.consumers = [ev for ev in self.pevents if ev["kind"] == "mutcall" or ev.get("pseudo")]
         # ---- the pair loop
         loops = cfg.loops()
         self.loop_head = None
@@ -195,6 +209,42 @@ class DecoderModel:
             self.problem("no dispatch on the key inside the loop")
 
     # -- helpers ----------------------------------------------------------
+    def _step_amount(self, ev):
+        """n if the assignment `cursor = RHS` leaves cursor[n..]: RHS = cursor.split_at(n).1 or &cursor[n..]"""
+        from kernel import unmut
+        an = self.an
+        st = ev["stmt"]
+        if st.rv is None:
+            return None
+        e = unmut(an.rvalue_expr(st.rv, ev["bb"], ev["idx"]))
+        base = None
+        amt = None
+        if e.k == "field" and e.a[1] == "1":
+            sp = unmut(e.a[0])
+            if sp.k == "call" and sp.a[0].name == "split_at" and len(sp.a[1]) == 2 and sp.a[0].krate in ("core", "alloc", "std"):
+                base, amt = sp.a[1][0], sp.a[1][1]
+        elif e.k == "call" and e.a[0].name == "index" and len(e.a[1]) == 2:
+            r = strip(e.a[1][1])
+            if r.k == "agg" and r.a[0].endswith("RangeFrom") and "start" in r.a[1]:
+                base, amt = e.a[1][0], r.a[1]["start"]
+        if base is None:
+            return None
+        # the base is the cursor itself
+        if not any(x.k == "mutated" and x.a[1] in self.cursor_chain for x in base.walk()) and not same_value(unmut(base), unmut(an.rvalue_expr(self.payload_def[2].rv, self.payload_def[0], self.payload_def[1]))):
+            return None
+        return strip(amt)
+
+    def consumer_kind(self, ev):
+        if ev.get("pseudo"):
+            return ev["pseudo"]
+        return consumer_class(ev["term"])
+
+    def advance_amount(self, ev):
+        if ev.get("pseudo"):
+            return ev["amount"]
+        t = ev["term"]
+        return strip(self.an.operand_expr(t.args[1], ev["bb"], ev["idx"]))
+
     def holds_content(self, local, bb, idx):
         """is `local`, at (bb, idx), the map filled by the pair loop (possibly
         moved there through Ok(..)/`?`/plain moves)?"""
@@ -232,8 +282,7 @@ class DecoderModel:
         cons = self.leaf_consumers(leaf)
         classes = []
         for ev in cons:
-            t = ev["term"]
-            classes.append((consumer_class(t), t.sp, ev))
+            classes.append((self.consumer_kind(ev), ev["sp"] if ev.get("pseudo") else ev["term"].sp, ev))
         return classes
 
     def stored_value_for(self, leaf):
